@@ -262,7 +262,7 @@ class Monitor(object):
         mon.free_tool_id(TOOL)
 
 
-def run_threads(sched, monitor, programs, do_op, watchdog_s=30.0):
+def run_threads(sched, monitor, programs, do_op, watchdog_s=30.0, raw=False):
     """Run programs (list of op lists) under sched.  Returns (history, status).
     history: list of dicts t, i, op, call, ret (None if never returned), res."""
     hist = []
@@ -293,9 +293,21 @@ def run_threads(sched, monitor, programs, do_op, watchdog_s=30.0):
 
     monitor.sched = sched
     HOLDER.sched = sched
-    threads = [threading.Thread(target=worker, args=(t,), daemon=True) for t in range(sched.n)]
-    for t in threads:
-        t.start()
+    if raw:
+        # workers that are real OS threads but not threading.Thread objects (what an extension module's pool, an
+        # embedding application or _thread.start_new_thread gives): threading.active_count() stays at 1
+        import _thread
+        threads = []
+        HOLDER_STATS['raw_thread_runs'] = HOLDER_STATS.get('raw_thread_runs', 0) + 1
+        if threading.active_count() == 1:
+            HOLDER_STATS['raw_thread_runs_with_only_main_registered'] = \
+                HOLDER_STATS.get('raw_thread_runs_with_only_main_registered', 0) + 1
+        for t in range(sched.n):
+            _thread.start_new_thread(worker, (t,))
+    else:
+        threads = [threading.Thread(target=worker, args=(t,), daemon=True) for t in range(sched.n)]
+        for t in threads:
+            t.start()
     sched.sems[sched.first].release()
     ok = sched.main_sem.acquire(timeout=watchdog_s)
     monitor.sched = None
